@@ -224,6 +224,75 @@ theorem C18_modes_sum_argument_order (ms ms' : List Mode) (h : ms.Perm ms') : mo
             simp only []
             rw [alignLoop_eq_map, alignLoop_eq_map, C18_sum_argument_order _ _ (h.map _)]
 
+/-- `modepb.Cut` and `segmentpb.Shift` agree: whenever `Cut(t, mode)` returns an `after` part for a mode with
+segments and `t` after its start, that part starts at `t` and its segments are exactly — as a list — the
+mode's segments shifted left by the time elapsed since the start. -/
+theorem C18_cut_after_is_shift (t st : Int) (m : Mode) (hst : m.start = some st) (hgt : st < t)
+    (hne : m.segs ≠ []) (a : Mode) (ha : (modeCut t m).after = some a) :
+    a.start = some t ∧ a.segs = shift (-(t - st)) m.segs := by
+  have hd0 : ¬ (-(t - st)) = 0 := by omega
+  have hdp : ¬ (-(t - st)) > 0 := by omega
+  have hn : ¬ t - st < 0 := by omega
+  have hd : 0 ≤ t - st := by omega
+  have hlen : ¬ m.segs.length = 0 := fun e => hne (List.length_eq_zero_iff.mp e)
+  have hgt' : ¬¬ (t > st) := fun x => x hgt
+  have hshift : shift (-(t - st)) m.segs = afterAt (t - st) m.segs := by
+    unfold shift
+    simp only [hd0, if_false]
+    cases hm : m.segs with
+    | nil => exact absurd hm hne
+    | cons first rest =>
+      simp only [hdp, if_false]
+      rw [shiftNegLoop_eq_afterAt]
+      have : - -(t - st) - 0 = t - st := by omega
+      rw [this]
+  have hact : activeAt (t - st) m.segs = activeAtLoop (t - st) 0 0 m.segs := by simp [activeAt, hn]
+  have hspec := activeAtLoop_spec m.segs (t - st) hd
+  unfold modeCut at ha
+  simp only [hlen, if_false, tOrST_eq, hst, Option.getD_some, hgt', hact] at ha
+  by_cases hend : (activeAtLoop (t - st) 0 0 m.segs).2 = m.segs.length
+  · simp only [hend, if_true] at ha; cases ha
+  · simp only [hend, if_false] at ha
+    cases hs : m.segs[(activeAtLoop (t - st) 0 0 m.segs).2]? with
+    | none => rw [hs] at ha; cases ha
+    | some s =>
+      rw [hs] at ha
+      simp only [Option.some.injEq] at ha
+      have hdrop : m.segs.drop (activeAtLoop (t - st) 0 0 m.segs).2 =
+          s :: m.segs.drop ((activeAtLoop (t - st) 0 0 m.segs).2 + 1) := by
+        have hlt : (activeAtLoop (t - st) 0 0 m.segs).2 < m.segs.length := by
+          have := hspec.2.2.1; omega
+        rw [List.drop_eq_getElem_cons hlt]
+        congr 1
+        rw [List.getElem?_eq_getElem hlt] at hs
+        exact Option.some.inj hs
+      rw [hshift]
+      unfold afterAt
+      simp only [hdrop]
+      cases hl : s.len with
+      | none =>
+        -- Cut of a length-less segment returns the segment itself as `after`
+        have hafter : (cutSeg (t - st - (activeAtLoop (t - st) 0 0 m.segs).1) s).after = some s := by
+          unfold cutSeg
+          split
+          · rfl
+          · simp [hl]
+        rw [hafter] at ha
+        simp only [] at ha
+        rw [← ha]
+        exact ⟨rfl, rfl⟩
+      | some l =>
+        have hin := ((hspec.2.2.2.2.1 s hs).2 l hl)
+        have hsome := cutSeg_after_isSome (t - st - (activeAtLoop (t - st) 0 0 m.segs).1) s
+          (fun l' hl' => by rw [hl] at hl'; cases hl'; omega)
+        cases hca : (cutSeg (t - st - (activeAtLoop (t - st) 0 0 m.segs).1) s).after with
+        | none => rw [hca] at hsome; cases hsome
+        | some sa =>
+          rw [hca] at ha
+          simp only [] at ha
+          rw [← ha]
+          exact ⟨rfl, by simp⟩
+
 /-- Before its start time a mode is not there: `modepb.MagnitudeAt` answers `(0, false)` whatever the first
 segment is, `modepb.ActiveAt` the documented `(t − start, 0)` with a negative elapsed time, the step
 function is `0` (so `MinAt` counts a mode that has not started as `0`), and `modepb.Cut` returns
@@ -305,6 +374,8 @@ theorem C18_sum_leading_idle (ls : List (List Seg)) (h : AllNonNeg ls) (a : Int)
     rfl
 
 /-! Non-vacuity and concrete values: the named corner cases on concrete inputs. -/
+example : (modeCut 5 ⟨some 2, [⟨1, some 2⟩, ⟨2, some 4⟩, ⟨3, some 1⟩]⟩).after.map (·.segs)
+    = some (shift (-3) [⟨1, some 2⟩, ⟨2, some 4⟩, ⟨3, some 1⟩]) := by decide
 example : sum [[⟨1, some 2⟩, ⟨-2, none⟩], [⟨2, some 3⟩], [⟨0, some 1⟩, ⟨4, some 1⟩]]
     = sum [[⟨0, some 1⟩, ⟨4, some 1⟩], [⟨1, some 2⟩, ⟨-2, none⟩], [⟨2, some 3⟩]] := by decide
 example : (modeCut 5 ⟨some 2, [⟨1, some 2⟩, ⟨2, some 4⟩, ⟨3, some 1⟩]⟩).before = some ⟨some 2, [⟨1, some 2⟩, ⟨2, some 1⟩]⟩ ∧
